@@ -492,7 +492,7 @@ impl<A: RefNode, B: RefNode> RefNode for RPair<A, B> {
 }
 
 // ------------------------------------------------------------------ rules and tokens
-/// kind: 0 normal, 1 silent `_`, 2 atomic `@`, 3 compound-atomic `$`, 4 non-atomic `!`.
+/// kind: 0 normal, 1 silent `_`, 2 atomic `@`, 3 compound-atomic `$`, 4 non-atomic `!`, 5 silent skip rule.
 /// Emits the token (rule, start, end, depth) in pre-order unless muted; mutes everything below
 /// an atomic or compound-atomic rule (pest-typed's documented pruning). The atomicity of the
 /// *expression* is a static matter: refgen instantiates `Inner` with the right SKIP constants.
@@ -501,6 +501,15 @@ impl<const ID: u8, const KIND: u8, Inner: RefNode> RefNode for RRule<ID, KIND, I
     fn eval(c: Ctx<'_>, s: RefState) -> Option<RefState> {
         if KIND == 1 {
             return Inner::eval(c, s);
+        }
+        if KIND == 5 {
+            // silent skip rule (WHITESPACE / COMMENT declared `_`): no token of its own, and pest matches
+            // its expression atomically, so nothing below it emits tokens either
+            let mut t = s;
+            t.mute = true;
+            let mut r = Inner::eval(c, t)?;
+            r.mute = s.mute;
+            return Some(r);
         }
         let mut t = s;
         let emit = !s.mute;
